@@ -38,15 +38,17 @@ fcppt::optional::object<T> ceil_div_signed(T const &_dividend, T const &_divisor
 
   T const zero{fcppt::literal<T>(0)};
 
-  return (_dividend < zero)
-             ? fcppt::optional::make_if(
-                   _divisor != zero, [_dividend, _divisor] { return _dividend / _divisor; })
-             : fcppt::optional::map(
-                   fcppt::math::ceil_div(
-                       fcppt::cast::to_unsigned(_dividend), fcppt::cast::to_unsigned(_divisor)),
-                   [](std::make_unsigned_t<T> const _result) {
-                     return fcppt::cast::to_signed(_result);
-                   });
+  return fcppt::optional::make_if(_divisor != zero, [_dividend, _divisor, zero] {
+    T const quotient{static_cast<T>(_dividend / _divisor)};
+
+    T const remainder{static_cast<T>(_dividend % _divisor)};
+
+    // Truncation rounds towards zero, which already is the ceiling if the
+    // exact quotient is negative.
+    return (remainder != zero && ((remainder < zero) == (_divisor < zero)))
+               ? static_cast<T>(quotient + fcppt::literal<T>(1))
+               : quotient;
+  });
 }
 
 }
